@@ -27,3 +27,23 @@ func VerifPublishBytes(topic string, payload byte, qos byte, id uint16, retain b
 	return vPublishBytes(topic, payload, qos, id, retain, ver)
 }
 func VerifWritten(c net.Conn) []byte { return vConnWritten(c) }
+
+// VerifInflight: the (packet id << 8 | packet type) values of a session's in-flight records, ascending
+func VerifInflight(s *Server, id string) []uint32 {
+	cl, ok := s.Clients.Get(id)
+	if !ok {
+		return nil
+	}
+	var out []uint32
+	for _, pk := range cl.State.Inflight.GetAll(false) {
+		v := uint32(pk.PacketID)<<8 | uint32(pk.FixedHeader.Type)
+		i := len(out)
+		out = append(out, v)
+		for i > 0 && out[i-1] > v {
+			out[i] = out[i-1]
+			i--
+		}
+		out[i] = v
+	}
+	return out
+}
